@@ -368,10 +368,28 @@ def check_paths(fx, R, cq, cname):
             R.violated('L3', inst + ':normal-equations', 'this path does not build %s with the shared helper before using it (%s): the two solver paths then solve different normal equations' % (
                 'J^T J' if not okj else 'J^T Y', [s[1] for s in st if contains_name(s, 'this.JtJ_')][:1]), fx.rel(f['loc']), 'E-STATE')
         rets = [s[1] for s in st if s[0] == 'return']
+        # locals standing for a sub-expression (`Vector estimate = inverseJtJ_ * JtY_;`) are resolved before the returned expressions are judged
+        locs_ = {s_[1]: s_[2] for s_ in st if s_[0] == 'decl' and s_[2] is not None}
+
+        def resolve(t, depth=0):
+            if isinstance(t, str) and t in locs_ and depth < 4:
+                return resolve(locs_[t], depth + 1)
+            if isinstance(t, tuple):
+                return tuple(resolve(y_, depth) if n_ else y_ for n_, y_ in enumerate(t))
+            return t
+        rres = [resolve(r_) for r_ in rets]
+        guards = [s_[1] for s_ in st if s_[0] == 'if']
+        partial = [r_ for r_ in rres if not contains_name(r_, 'this.Bc_') and contains_name(r_, 'this.inverseJtJ_') and contains_name(r_, 'this.JtY_')]
+        full = [r_ for r_ in rres if all(contains_name(r_, n_) for n_ in ('this.Ac_', 'this.Bc_', 'this.inverseJtJ_', 'this.JtY_'))]
         if rets in ([RET], [RET2]):
             R.holds('L3', inst + ':result', 'x = A (JtJ)^-1 JtY + b', fx.rel(f['loc']), 'E-SIB')
+        elif partial and full and guards:
+            ridx = next((n_ for n_, s_ in enumerate(st) if s_[0] == 'return' and resolve(s_[1]) == partial[0]), len(st))
+            gtxt = next((s_[1] for s_ in reversed(st[:ridx]) if s_[0] == 'if'), guards[0])
+            R.violated('L3', inst + ':result:offset-dropped', 'one return of this function is `%s` (under `%s`) - the solution of the normal equations WITHOUT the offset Bc_ - next to the full `A x + b`: on that path a '
+                       'configured preconditioner offset is not applied (setPreconditionner(I, b) with b != 0 returns x instead of x + b)' % (str(partial[0])[:100], str(gtxt)[:80]), fx.rel(f['loc']), 'E-SIB')
         else:
-            absent = [n for n in ('this.Ac_', 'this.Bc_', 'this.inverseJtJ_', 'this.JtY_') if rets and not any(contains_name(r, n) for r in rets)]
+            absent = [n for n in ('this.Ac_', 'this.Bc_', 'this.inverseJtJ_', 'this.JtY_') if rres and not any(contains_name(r, n) for r in rres)]
             if absent:
                 R.violated('L3', inst + ':result', 'the returned expression %s does not use %s: the %s is not applied on this path' % (
                     rets, absent, 'preconditioner' if absent[0] in ('this.Ac_', 'this.Bc_') else 'solution of the normal equations'), fx.rel(f['loc']), 'E-SIB')
@@ -728,6 +746,9 @@ def check_instance(fx, R, cq, cname):
                 elif not weighted and fs & wsyms:
                     sy = sorted(map(str, fs & wsyms))[0]
                     R.violated('L7', '%s::%s:weights' % (cname, name), 'the result of the unweighted %s() contains the weight %s: it is not the minimiser of |Jx - Y|' % (name, sy), fx.rel(f['loc']), 'E-ALG')
+                elif any((not isinstance(c_[1], sp.Basic)) or c_[1].atoms(sp.core.function.AppliedUndef) or isinstance(c_[1], sp.Symbol) for c_ in st.cond if c_[0] not in ('True', 'False')):
+                    # the path is taken under a condition the model cannot evaluate (e.g. Ac_.isIdentity()): a witness that differs may not take this path at all
+                    R.undecided('L7', pinst, 'on a path whose condition is not evaluable on the instance the result differs in form from %s' % what)
                 else:
                     # a different function of the current rows: confirm on a witness point before calling it a violation
                     diff = sp.Matrix(got) - sp.Matrix(expected)
